@@ -52,6 +52,7 @@ Arrivals ==
   [t : {"piece"}, m : Msgs, k : 1..3] \cup [t : {"wrongtotal"}, m : Msgs, k : 1..3]
   \cup [t : {"zero", "nzero", "beyond", "foreign", "stranger", "garbage", "whole"}, m : {"M"}, k : {1}]
   \cup [t : {"otherformat"}, m : {"M"}, k : {1, 3}]
+  \cup [t : {"errormsg", "query"}, m : {"M"}, k : {1}]
 
 VARIABLES k, n,      \* reassembly context: index and total (0, 0 = empty)
           buf,       \* which pieces the buffer holds: sequence of <<message, index>>
@@ -80,7 +81,10 @@ Arrive(a) ==
   /\ count' = count + 1
   /\ path' = IF Export THEN Append(path, a) ELSE path
   /\ bound0' = bound0
-  /\ CASE a.t \in {"foreign", "garbage", "otherformat"} -> UNCHANGED <<k, n, buf, processed, bound>>
+  /\ CASE a.t \in {"foreign", "garbage", "otherformat", "errormsg"} -> UNCHANGED <<k, n, buf, processed, bound>>
+       \* an OTR error message in between is handed to the user and leaves the reassembly alone; any other
+       \* whole message (a text, a query) ends it
+       [] a.t = "query" -> /\ k' = 0 /\ n' = 0 /\ buf' = <<>> /\ UNCHANGED <<processed, bound>>
        \* "otherformat": a well-formed fragment (first / completing piece) in the header format of the other
        \* protocol version is not a fragment of this conversation
        \* a fragment of the peer's, addressed to another of our instances ("foreign"), is nothing to us:
